@@ -181,6 +181,11 @@ theorem c12_step (w : Wiring) (hw : WellWired12 w) (n : Nat) {s s' : AState} {σ
       simp only [step] at hs
       obtain ⟨tok, rest, hq, hc⟩ := stepTickBegin_detail hs
       exact ⟨σ, by simp [monC12, Label.terminates], inv_rename hi t m tok rest hq hc (stepTickBegin_ops hs)⟩
+    case extBegin b m =>
+      simp only [step] at hs
+      obtain ⟨tok, rest, hq, hc⟩ := stepExtBegin_detail hs
+      exact ⟨σ, by simp [monC12, Label.terminates],
+        inv_rename_pl hi (.ext b) (by simp) m tok rest hq hc (stepExtBegin_ops hs)⟩
     case tDeq =>
       simp only [step] at hs
       obtain ⟨e, rest, hq, hne, hc⟩ := stepDeq_detail hs
